@@ -225,4 +225,21 @@ func NewCSVDatabaseResolvedCommand$1$1$1 returns (err)
     assert @wiring [C16 C11 C13] #arg0 == streams[0] && #arg1.ParserConfig == o.ParserConfig && #arg1.ReporterConfig == o.ReporterConfig && #arg1.ResolverConfig == o.ResolverConfig
   }
 
+
+// the command's own flag table: the option names the options loader and the reporters read (C16)
+func NewCSVLogCommand returns (cmd)
+  props C16 C06 C08
+  ensures @name [C16] cmd != nil && cmd.Name == "log"
+  ensures @flags [C16 C06] len(cmd.Flags) == 2 && CmdStrFlag(cmd.Flags[0], "begin") && CmdStrFlag(cmd.Flags[1], "end")
+
+func NewCSVDatabaseCommand returns (cmd)
+  props C16 C08
+  ensures @name [C16] cmd != nil && cmd.Name == "database"
+  ensures @flags [C16] len(cmd.Flags) == 0
+
+func NewCSVDatabaseResolvedCommand returns (cmd)
+  props C16 C08
+  ensures @name [C16] cmd != nil && cmd.Name == "database-resolved"
+  ensures @flags [C16] len(cmd.Flags) == 0
+
 @*/
